@@ -513,6 +513,11 @@ func TestC02(t *testing.T) {
 		{
 			k := rapid.IntRange(1, 4).Draw(t, "trailing_after_exts")
 			junk := hello.GenBytes(t, "trailing_junk", k)
+			if rapid.IntRange(0, 2).Draw(t, "trailing_zeros") == 0 {
+				// what looks like padding: zero bytes, a few or many
+				k = rapid.SampledFrom([]int{1, 2, 4, 16, 64}).Draw(t, "trailing_zeros_len")
+				junk = make([]byte, k)
+			}
 			m := append(append([]byte{}, sc.OuterMsg...), junk...)
 			n := len(m) - 4
 			m[1], m[2], m[3] = byte(n>>16), byte(n>>8), byte(n)
